@@ -9,8 +9,10 @@
 EXTENDS ResPattern, Json
 Trace == ndJsonDeserialize("trace.ndjson")
 VARIABLE l
-Init == l \in 1..Len(Trace)
-Next == UNCHANGED l
+\* records are visited in Stride interleaved chains so that TLC's workers share the work
+Stride == 64
+Init == l \in 1..(IF Len(Trace) < Stride THEN Len(Trace) ELSE Stride)
+Next == l + Stride <= Len(Trace) /\ l' = l + Stride
 R == Trace[l]
 
 PairSet(m) == {m[i] : i \in 1..Len(m)}
